@@ -109,18 +109,24 @@ def check_case(case, ctx):
             continue
         if bsingle or q["b"]["k"] == "int32":
             continue
-        sched = pools.set_schedule(q["sched"])
-        try:
-            got = qcall(lambda: list(pck[fobj][lv].iter(bobj)))
-        except Exception as e:
-            if fmust and bmust:
-                v.append(f"query {qi} pck[..][{lv}].iter({q['b']}): raised {type(e).__name__}: {e}")
-            continue
-        finally:
-            pools.set_schedule(None)
         want = [expected[int(b)] for b in np.atleast_1d(exp_b)]
-        if len(got) != len(want) or not all(isinstance(g, np.ndarray) and refread.same_bits(g, w) for g, w in zip(got, want)):
-            v.append(f"query {qi} pck[{q['f']}][{lv}].iter({q['b']}): does not yield the selected boxes in the requested order")
+        # tasks may start AND finish in any order: the drawn order, and the fully reversed one
+        rev = list(range(len(want) - 1, -1, -1))
+        for sc in (dict(exec=q["sched"]["exec"], comp=q["sched"]["exec"], lazy=q["sched"]["lazy"]),
+                   dict(exec=[rev], comp=[rev], lazy=False)):
+            pools.set_schedule(sc)
+            try:
+                got = qcall(lambda: list(pck[fobj][lv].iter(bobj)))
+            except Exception as e:
+                if fmust and bmust:
+                    v.append(f"query {qi} pck[..][{lv}].iter({q['b']}): raised {type(e).__name__}: {e}")
+                break
+            finally:
+                pools.set_schedule(None)
+            if len(got) != len(want) or not all(isinstance(g, np.ndarray) and refread.same_bits(g, w) for g, w in zip(got, want)):
+                v.append(f"query {qi} pck[{q['f']}][{lv}].iter({q['b']}) with task order {sc['exec']}: does not yield the "
+                         f"selected boxes in the requested order")
+                break
         ctx.label("iter:" + q["b"]["k"])
     return v
 
